@@ -93,10 +93,34 @@ def seeded():
     return head + "\n".join(rows)
 
 
+def seeded_stats():
+    import collections
+    per = collections.OrderedDict()
+    for d in sorted(glob.glob(os.path.join(ROOT, "seeded/*/meta.json"))):
+        m = json.load(open(d))
+        if not m.get("confirmed"):
+            continue
+        tag = m.get("tag", "")
+        rnd = tag[1:] or "1"
+        st = per.setdefault(rnd, [0, 0, 0])
+        st[0] += 1
+        runs = m.get("runs") or []
+        first = runs[0].get("caught_by") if runs else m.get("caught_by")
+        hist = m.get("history") or ""
+        if (first and not hist.startswith("missed")) or hist.startswith("caught at first"):
+            st[1] += 1
+        if (m.get("caught_by") or m.get("caught_by_after_strengthening")):
+            st[2] += 1
+    out = ["| round | confirmed changes | caught by the check as it was when the change arrived | caught now |", "|---|---|---|---|"]
+    for r, (n, f, c) in per.items():
+        out.append("| %s | %d | %d | %d |" % (r, n, f, c))
+    return "\n".join(out)
+
+
 def main():
     p = os.path.join(ROOT, "DESIGN.md")
     s = open(p).read()
-    for name, fn in (("levels", levels), ("defects", defects), ("seeded", seeded)):
+    for name, fn in (("levels", levels), ("defects", defects), ("seeded", seeded), ("seeded_stats", seeded_stats)):
         a, b = "<!-- GEN:%s -->" % name, "<!-- /GEN:%s -->" % name
         if a in s and b in s:
             i, j = s.index(a) + len(a), s.index(b)
